@@ -1,9 +1,9 @@
 SPECIFICATION Spec
 CONSTANTS
   MaxC = 2
-  MaxLen = 3
-  ModelKinds = {"str", "int", "list_cprim"}
-  FormOps = {"<=", ">=", "==", "!="}
+  MaxLen = 2
+  ModelKinds = {"str", "list_str", "int"}
+  FormOps = {"<=", ">="}
   Sides = {"L"}
 INVARIANT TypeOK
 INVARIANT Design_ValidAccepted
